@@ -353,6 +353,18 @@ def _groups(cases):
     return out
 
 
+MAX_LISTED = 300
+
+
+def report(run, key, what, replay):
+    """run.violation, but after MAX_LISTED distinct violations the rest is only counted (a badly broken
+    implementation fails hundreds of thousands of cases; listing them all is useless and quadratic)."""
+    if len(run.violations) >= MAX_LISTED and key not in run.known:
+        run.coverage["violations_beyond_the_listed_ones"] = run.coverage.get("violations_beyond_the_listed_ones", 0) + 1
+        return
+    run.violation(key, what, replay)
+
+
 def main() -> int:
     tier = sys.argv[1] if len(sys.argv) > 1 else "quick"
     if tier == "--replay":
@@ -394,7 +406,7 @@ def main() -> int:
                     for (idx, stepno), clause, what in sorted(problems, key=lambda pr: (pr[0][1], pr[0][0])):
                         path = paths.get(idx, [])
                         key = f"pos={st['pos']} vec={st['vec']} start={st['psys']} path=[{_acts(path[:stepno])}]: {clause}"
-                        run.violation(key, what, {"kind": "path", "start": st, "path": path[:max(stepno, 0)]})
+                        report(run, key, what, {"kind": "path", "start": st, "path": path[:max(stepno, 0)]})
                 run.coverage.setdefault("real_steps_executed", {})[f"paths{n}"] = steps
             # code -> spec
             recs, by_id = [], {}
@@ -403,7 +415,7 @@ def main() -> int:
                 for note in notes:
                     run.outside(note)
                 for clause, what in problems:
-                    run.violation(f"tables at {list(pos)}: {clause}", what, {"kind": "matrix", "pos": list(pos)})
+                    report(run, f"tables at {list(pos)}: {clause}", what, {"kind": "matrix", "pos": list(pos)})
                 if rec is not None:
                     recs.append(rec)
                     by_id[rid] = rec
@@ -411,11 +423,12 @@ def main() -> int:
         failing = validate_matrices(run, sc, recs)
         run.traces += len(recs)
         run.coverage["matrix_records_validated"] = len(recs)
+        run.coverage["matrix_records_rejected_by_trace_spec"] = len(failing)
         for rid, bad in sorted(failing.items()):
             rec = by_id[rid]
             for clause, where in bad.items():
                 for w in where:
-                    run.violation(f"tables at {rec['p']}: {clause} {w}",
+                    report(run, f"tables at {rec['p']}: {clause} {w}",
                                   f"TLC rejects {clause} for {w} on the recorded real tables at {rec['p']}",
                                   {"kind": "matrix", "pos": rec["p"], "clause": clause, "where": w})
         selftest(run, sc, [r for r in recs if r["id"] not in failing])
